@@ -27,7 +27,7 @@ Oracles, at every radius and grid point (lam = K - 2 mu/3 computed by the harnes
   heating    dtype float64, finite, >= -HEAT_TOL*scale (non-negative to rounding), == c |Im sum_k w_k sigma_k conj(eps_k)|,
              w = (1,1,1,2,2,2), with one positive constant c per case (median ratio over the points whose dissipation
              is > 1e-6 of the scale; c in [1e-3,1e3]; the statement fixes no normalisation such as omega/2)
-                                                                   |err| <= HEAT_TOL * c * sum_k w_k |sigma_k||eps_k|
+                                                                   |err| <= HEAT_TOL (1e-10) * c * sum_k w_k |sigma_k||eps_k|
   elastic    real moduli: heating <= ELASTIC_TOL * sum_k w_k (|sigma_k| + 2|mu||eps_k| + (|K|+|mu|) sum_diag|eps|) |eps_k|
              (real y: exactly 0 is expected; complex y with real moduli: sigma_k conj(eps_k) sums to a real number only
              after cancellation, tolerance ELASTIC_CY_TOL on the same scale)
@@ -75,7 +75,7 @@ SHARDS = {'quick': 8, 'thorough': 16}
 
 HOOKE_TOL = 1e-12
 TRAC_TOL = 1e-11
-HEAT_TOL = 1e-12
+HEAT_TOL = 1e-10   # 600 000-case thorough run: worst err/scale 2.3e-12 (rounding of the median-estimated constant c); a dropped factor gives O(1)
 ELASTIC_TOL = 1e-14
 ELASTIC_CY_TOL = 1e-14
 LAPLACE_TOL = 1e-11
